@@ -530,9 +530,14 @@ fn check_flow_funding(acc: &mut Acc, wd: &mut IncWorld, _resp: &AppResponse, flo
     acc.count("check.F2");
     let flows_post = wd.flows();
     let bal_post = all_balances(&wd.app, &wd.tokens);
-    let funded_pre: u128 = flows_pre.iter().filter(|f| AssetRef::from_info(&f.flow_asset.info) == *asset).map(funded_of).sum();
-    let funded_post: u128 = flows_post.iter().filter(|f| AssetRef::from_info(&f.flow_asset.info) == *asset).map(funded_of).sum();
-    let d_funded = funded_post as i128 - funded_pre as i128;
+    // outstanding = funded - claimed: an expansion that resets a flow folds the claimed amount into the new base amount
+    let outstanding = |f: &im::Flow| funded_of(f) as i128 - f.claimed_amount.u128() as i128;
+    let funded_pre: i128 = flows_pre.iter().filter(|f| AssetRef::from_info(&f.flow_asset.info) == *asset).map(outstanding).sum();
+    let funded_post: i128 = flows_post.iter().filter(|f| AssetRef::from_info(&f.flow_asset.info) == *asset).map(outstanding).sum();
+    let d_funded = funded_post - funded_pre;
+    if flows_post.iter().any(|f| flows_pre.iter().any(|g| g.flow_id == f.flow_id && g.start_epoch != f.start_epoch)) {
+        acc.count("expand_flow.ok.flow-reset");
+    }
     let get = |m: &BTreeMap<(String, String), u128>, a: &str, s: &str| m.get(&(a.to_string(), s.to_string())).copied().unwrap_or(0) as i128;
     let inc = wd.incentive.to_string();
     let d_contract = get(&bal_post, &inc, &asset.id()) - get(&bal_pre, &inc, &asset.id());
@@ -821,10 +826,12 @@ pub fn run_history(acc: &mut Acc, r: &mut Rng, steps: u64, variant: u64) {
                 2 => Some(e + 15),
                 _ => Some(e),
             };
-            let end = match r.below(4) {
+            let end = match r.below(5) {
                 0 => None,
                 1 => Some(e + r.range(1, 6)),
                 2 => Some(e.saturating_sub(1)),
+                // long flows: beyond the 180-epoch expansion limit, so that a later expansion resets the flow
+                3 => Some(e + *r.pick(&[179u64, 180, 181, 182, 250, 400])),
                 _ => Some(e + r.range(2, 30)),
             };
             let pay = if r.chance(1, 3) { r.range(1, 3) as u8 } else { 0 };
@@ -835,9 +842,10 @@ pub fn run_history(acc: &mut Acc, r: &mut Rng, steps: u64, variant: u64) {
             if !flows.is_empty() {
                 let f = flows[r.idx(flows.len())].clone();
                 let e = wd.epoch();
-                let end = match r.below(3) {
+                let end = match r.below(4) {
                     0 => None,
                     1 => Some(e + r.range(1, 40)),
+                    2 => Some(f.start_epoch + *r.pick(&[179u64, 180, 181, 200, 365])),
                     _ => Some(crate::mon::inc::flow_end(&f) + r.range(0, 20)),
                 };
                 let pay = if r.chance(1, 5) { r.range(2, 3) as u8 } else { 0 };
